@@ -183,8 +183,11 @@ def witness_revert_inplace(out):
     shutil.rmtree(base, ignore_errors=True)
     ws, root = os.path.join(base, "ws"), os.path.join(base, "root")
     os.makedirs(ws); os.makedirs(root)
+    wide_cmd = "mkdir -p w; for i in $(seq 1 101); do { echo $i; cat in.txt; } > w/f$i; done"
     json.dump({"targets": [{"name": "t", "inputs": ["in.txt"], "outputs": ["out.txt", "dir::d"],
                             "command": "cat in.txt > out.txt; mkdir -p d; cat in.txt in.txt > d/twice.txt"},
+                           # a directory output with more files than any plausible limit on concurrent restores (32, 64)
+                           {"name": "w", "inputs": ["in.txt"], "outputs": ["dir::w"], "command": wide_cmd},
                            {"name": "u", "dependencies": [":t"], "outputs": ["u.txt"], "command": "cat out.txt d/twice.txt > u.txt"}]},
               open(os.path.join(ws, "BUILD.json"), "w"))
     open(os.path.join(ws, "grog.toml"), "w").write("")
@@ -195,14 +198,19 @@ def witness_revert_inplace(out):
         open(os.path.join(ws, "in.txt"), "w").write("content %s\n" % v)
         p = subprocess.run([grog, "build", "//..."], cwd=ws, env=env, stdout=subprocess.PIPE, stderr=subprocess.PIPE, text=True, timeout=120)
         rd = lambda f: open(os.path.join(ws, f)).read() if os.path.exists(os.path.join(ws, f)) else None
-        got = {"rc": p.returncode, "out.txt": rd("out.txt"), "d/twice.txt": rd("d/twice.txt"), "u.txt": rd("u.txt")}
         c = "content %s\n" % v
-        want = {"rc": 0, "out.txt": c, "d/twice.txt": c + c, "u.txt": c + c + c}      # what a from-scratch build of this state writes
+        wdir = os.path.join(ws, "w")
+        wfiles = sorted(os.listdir(wdir)) if os.path.isdir(wdir) else []
+        wbad = [f for f in wfiles if rd("w/" + f) != "%s\n%s" % (f[1:], c)]
+        got = {"rc": p.returncode, "out.txt": rd("out.txt"), "d/twice.txt": rd("d/twice.txt"), "u.txt": rd("u.txt"),
+               "w: files": len(wfiles), "w: files with other content": wbad[:5]}
+        want = {"rc": 0, "out.txt": c, "d/twice.txt": c + c, "u.txt": c + c + c,      # what a from-scratch build of this state writes
+                "w: files": 101, "w: files with other content": []}
         obs.append({"input": v, "observed": got})
         if got != want:
             out.violation("build %d of the history %s (commands rewrite their outputs in place) leaves %s; a from-scratch build of this state "
                           "leaves %s" % (k, seq, got, want),
-                          {"description": ["//:t: cat in.txt > out.txt; cat in.txt in.txt > d/twice.txt (dir::d); //:u reads both",
+                          {"description": ["//:t: cat in.txt > out.txt; cat in.txt in.txt > d/twice.txt (dir::d); //:u reads both; //:w writes 101 files into dir::w",
                                            "in.txt takes the values %s with a build after each, one cache" % seq], "observed": obs})
             break
     shutil.rmtree(base, ignore_errors=True)
